@@ -544,6 +544,29 @@ func (s *Server) Seed(resKey string, o Obj) (Obj, int) {
 }
 
 // Get returns a copy of a stored object (nil if absent).
+// NamesOf lists the names of the objects of a resource in a namespace.
+func (s *Server) NamesOf(resKey, ns string) []string {
+	s.mu.Lock()
+	defer s.mu.Unlock()
+	var out []string
+	for _, o := range s.store {
+		m := meta(o)
+		k, _ := o["kind"].(string)
+		rd, ok := s.res[resKey]
+		if !ok || k != rd.Kind {
+			continue
+		}
+		if n, _ := m["namespace"].(string); rd.Namespaced && n != ns {
+			continue
+		}
+		if name, _ := m["name"].(string); name != "" {
+			out = append(out, name)
+		}
+	}
+	sort.Strings(out)
+	return out
+}
+
 func (s *Server) Get(resKey, ns, name string) Obj {
 	s.mu.Lock()
 	defer s.mu.Unlock()
